@@ -806,7 +806,7 @@ pub fn gen_case(rng: &mut Rng, out: &mut Out) -> Case {
         6 | 7 => floor + rng.below(200),
         8..=11 => floor + rng.range(200, 5000),
         12 => 1000,
-        13 => if rng.chance(1, 4) { 30_000_000 } else { floor + 3_000_000 },
+        13 => floor + 3_000_000,
         14 => 30_000_001,
         15..=24 => floor + rng.range(5_000, 100_000),
         _ => floor + rng.range(100_000, 1_500_000),
